@@ -46,7 +46,7 @@ ASSUMPTIONS = [
 ]
 BUDGET = {
     "quick": dict(cases=640, shards=4, timeout=600),
-    "thorough": dict(cases=3000, shards=16, timeout=3600),
+    "thorough": dict(cases=9000, shards=16, timeout=3600),
 }
 CLASSES = [
     "all_on", "zero_combo", "prop0", "prop1", "big_warp", "tiny", "long_T", "order23",
